@@ -194,9 +194,9 @@ def _returns_fresh(ctx, rel, q, rule, desc, summaries=None, only_if=None):
 
 def copy_discipline(ctx):
     n = _returns_fresh(ctx, AT, 'Atoms.prop', 'COPY', 'every get-mode return of Atoms.prop hands out a copy (list of keys, deep-copied Atoms, deep-copied array)')
-    ctx.floor('COPY/Atoms.prop', n, 4)
+    ctx.floor('COPY/Atoms.prop', n, 2)
     n = _returns_fresh(ctx, SYS, 'System.atoms_prop', 'COPY', 'every get-mode return of System.atoms_prop hands out a copy (delegation to Atoms.prop, or converted coordinates)')
-    ctx.floor('COPY/System.atoms_prop', n, 3)
+    ctx.floor('COPY/System.atoms_prop', n, 2)
     _returns_fresh(ctx, AT, 'Atoms.__deepcopy__', 'COPY', 'a deep copy of Atoms is built from deep-copied arrays')
     dc = ctx.fn(AT, 'Atoms.__deepcopy__')
     t = norm(dc)
